@@ -11,6 +11,9 @@ import Kopf.Lemmas.C09_Timed
 import Kopf.Lemmas.C09_Timer
 namespace Kopf.C09
 
+def cfgEx0 : Cfg := { backoff := some 64, timeout := some 128, polling := 3840 }
+def evEx0 : CycIn := { matching := true, marked := false, paused := false, deleted := false, ex1 := Ex.never, ex2 := Ex.never }
+
 /-! ## at most one instance -/
 
 /-- At any time at most one runner task of this id is alive, and it is alive exactly while the id is
@@ -49,6 +52,7 @@ theorem spawn_only_when_none (c : Cfg) (s s' : St) (l : Label) (h : Reach c s)
   | pause => exact absurd (by simpa using hsp) hne
   | resume => exact absurd (by simpa using hsp) hne
   | kFinal => exact absurd (by simpa using hsp) hne
+  | failForGood => exact absurd (by simpa using hsp) hne
 
 /-! ## started when the object appears / starts matching -/
 
@@ -70,11 +74,51 @@ theorem self_exit_is_remembered (c : Cfg) (s s' : St) (i : Inst) (hi : s.run = s
   subst hs
   simp [endInst, hown]
 
-/-- Once the id is in `forever_stopped`, no label list whatsoever creates an instance again. -/
+/-- Once the id is in `forever_stopped`, no label list whatsoever creates an instance again; and when
+    nothing runs (as after an own exit), nothing ever runs again. -/
 theorem no_restart_after_self_exit (c : Cfg) (s s' : St) (ls : List Label) (h : Reach c s)
     (hf : s.forever = true) (hr : runs c s ls = some s') :
-    s'.forever = true ∧ s'.spawns = s.spawns ∧ s'.run = none ∧ s'.live = 0 :=
+    s'.forever = true ∧ s'.spawns = s.spawns ∧ (s.run = none → s'.run = none ∧ s'.live = 0) :=
   runs_forever ls (reach_inv h) hf hr
+
+/-! ## a timer that has failed for good is not started again either (since a6c10de)
+
+  `_timer` puts its id into `forever_stopped` as soon as the series is done with a failure, while its
+  task keeps running (it is not invoked again: af4d77a). The next processing cycle of the object then
+  no longer selects the handler: the running task is stopped as a filter mismatch, and nothing — a filter
+  mismatch and re-match, a pause and resume — ever spawns it again. -/
+
+/-- the final failure is remembered at once, with the task still there -/
+theorem final_failure_is_remembered (c : Cfg) (s s' : St) (hs : step c s .failForGood = some s') :
+    s'.forever = true ∧ s'.run = s.run ∧ s.run.isSome = true := by
+  obtain ⟨h1, h2⟩ := step_failForGood hs
+  subst h1
+  exact ⟨rfl, rfl, h2⟩
+
+/-- after the final failure no label list creates an instance again, and the task that is still there is
+    asked to stop (as not matching any more) by the very next processing cycle of a live object -/
+theorem no_respawn_after_final_failure (c : Cfg) (s s1 s' : St) (ls : List Label) (h : Reach c s)
+    (hs : step c s .failForGood = some s1) (hr : runs c s1 ls = some s') :
+    s'.forever = true ∧ s'.spawns = s.spawns ∧
+    (∀ inp s2, step c s1 (.cycle inp) = some s2 → inp.marked = false →
+      ∀ i', s2.run = some i' → Reason.mismatch ∈ i'.reasons) := by
+  obtain ⟨hf1, _, _⟩ := final_failure_is_remembered c s s1 hs
+  have h1 := reach_step h _ hs
+  obtain ⟨a, b, _⟩ := runs_forever ls (reach_inv h1) hf1 hr
+  refine ⟨a, ?_, ?_⟩
+  · rw [b, step_spawns (reach_inv h) _ hs]; simp
+  · intro inp s2 hs2 hm i' hi'
+    obtain ⟨e, _⟩ := step_cycle hs2
+    subst e
+    exact (cycle_spec (reach_inv h1) inp).2.2.2.2.2.2.2.1 hm (by simp [hf1]) i' hi'
+
+/-- a timer fails for good at tick 40; the label edit that un-matches and re-matches it, a pause and a resume
+    later: stopped as a mismatch at the next event, ended, never spawned again -/
+example : ∃ s, runs { backoff := none, timeout := none, polling := 3840 } (St.init 0)
+      [.cycle evEx0, .tick 40, .failForGood, .tick 10, .cycle evEx0, .exit, .tick 5, .cycle { evEx0 with matching := false },
+       .cycle evEx0, .tick 14, .pause, .tick 64, .resume, .cycle evEx0] = some s ∧
+    s.forever = true ∧ s.spawns = 1 ∧ s.run = none :=
+  ⟨_, rfl, by decide, by decide, by decide⟩
 
 /-! ## staged termination -/
 
@@ -137,9 +181,6 @@ theorem stop_reasons (c : Cfg) (s s' : St) (h : Reach c s) :
     obtain ⟨i, _, _, _, hr, _, h1⟩ := step_kBegin hs
     subst h1
     exact ⟨hr, _, rfl, (mem_set (i := i) (r := r) (now := s.now)).mpr (Or.inr rfl)⟩
-
-def cfgEx0 : Cfg := { backoff := some 64, timeout := some 128, polling := 3840 }
-def evEx0 : CycIn := { matching := true, marked := false, paused := false, deleted := false, ex1 := Ex.never, ex2 := Ex.never }
 
 /-! ## when the operator pauses: the stages are gone through, whoever set the flag
 
@@ -290,15 +331,11 @@ theorem exit_respawn_witness :
 
 /-- After a DELETED event without the deletion mark on a matching object, the running instance has
     not been asked to stop and the memory is out of the inventory… -/
-theorem gone_unmarked_not_stopped (c : Cfg) (s : St) (i : Inst) (inp : CycIn) (h : Reach c s)
+theorem gone_unmarked_not_stopped (c : Cfg) (s : St) (i : Inst) (inp : CycIn) (hf : s.forever = false)
     (hi : s.run = some i) (hclean : i.reasons = [] ∧ i.kstarts = [])
     (hd : inp.deleted = true) (hm : inp.marked = false) (hmatch : inp.matching = true) (hp : inp.paused = false) :
     (cycle c inp s).1.known = false ∧ (cycle c inp s).1.run = some i ∧ i.reasons = [] ∧
       Orphan (cycle c inp s).1 := by
-  have hf : s.forever = false := by
-    cases hff : s.forever with
-    | false => rfl
-    | true => have := (reach_inv h).fz hff; rw [hi] at this; cases this
   have hrun : (cycle c inp s).1.run = some i := by simp [cycle, hd, hm, hmatch, hf, hi, hp, stopIf]
   have hkn : (cycle c inp s).1.known = false := by simp [cycle, hd, hm, hmatch, hf, hi, hp, stopIf]
   refine ⟨hkn, hrun, hclean.1, hkn, ?_⟩
